@@ -214,7 +214,7 @@ impl Engine for C17 {
             }
         }
         let calls = nlines + 3;
-        let mode = match r.below(16) {
+        let mode = match r.below(18) {
             0 | 1 => "direct",
             2 | 3 => "loop",
             4 => "array",
@@ -234,8 +234,20 @@ impl Engine for C17 {
             // read_line on the right-hand side of `and` / `or`: it runs only when the left side leaves
             // the answer open
             12 => "shortcircuit",
+            // the reading function is one of four that call each other in a ring; the ring is entered by a
+            // call whose result nobody reads
+            13 => "cycle4",
+            // many long lines through a function that returns them; only their lengths are kept
+            14 => "wrapped_many",
             _ => "straight",
         };
+        if mode == "wrapped_many" {
+            let n = r.pick(&[1500usize, 2200]);
+            let lines: Vec<Value> = (0..n).map(|_| json!({"len": r.usize(3000, 5000), "kind": "ascii"})).collect();
+            case["lines"] = json!(lines);
+            case["final_newline"] = json!(true);
+            case["frame_kib"] = json!(1024);
+        }
         if mode == "filter" || mode == "cond" {
             // many short lines: what a skipped iteration leaves behind must not add up
             let n = r.pick(&[150usize, 400, 1500]) + r.usize(0, 30);
@@ -252,7 +264,7 @@ impl Engine for C17 {
             let n = case["lines"].as_array().unwrap().len();
             case["stop_at"] = json!(n - r.usize(1, 5));
         }
-        let calls = if mode == "filter" || mode == "cond" { case["lines"].as_array().unwrap().len() + 3 } else { calls };
+        let calls = if mode == "filter" || mode == "cond" || mode == "wrapped_many" { case["lines"].as_array().unwrap().len() + 3 } else { calls };
         let mut errors = vec![];
         if r.chance(8) {
             let errno = r.pick(&[libc::EIO, libc::EINTR, libc::EAGAIN]);
@@ -424,6 +436,16 @@ impl Engine for C17 {
                         "do main() start\n{}    return 0\n\n    do next_line() start\n        return read_line(\"\")\n    end\nend\nmain()\n",
                         "    shout(next_line())\n".repeat(calls)
                     ),
+                    "cycle4" if calls >= 3 => format!(
+                        "do ra(n) start\n    if to say (n small pass 1) start\n        return 0\n    end\n    return rb(n)\nend\n\
+                         do rb(n) start\n    return rc(n)\nend\ndo rc(n) start\n    return rd(n)\nend\n\
+                         do rd(n) start\n    make l get read_line(\"\")\n    return ra(n minus 1)\nend\n\
+                         make skipped get ra(2)\n{}",
+                        "shout(read_line(\"\"))\n".repeat(calls - 2)
+                    ),
+                    "wrapped_many" => format!(
+                        "do next_line() start\n    return read_line(\"\")\nend\nmake i get 0\njasi (i small pass {calls}) start\n    i get i add 1\n    shout(next_line().len())\nend\n"
+                    ),
                     "shortcircuit" if calls >= 2 => format!(
                         "make i get 0\ndo more() start\n    shout(read_line(\"\"))\n    return true\nend\n\
                          jasi (i small pass {k} and more()) start\n    i get i add 1\nend\n\
@@ -441,11 +463,12 @@ impl Engine for C17 {
                     _ => "shout(read_line(\"\"))\n".repeat(calls),
                 };
                 let skipped = match mode {
+                    "cycle4" if calls >= 3 => 2,
                     "skip" if calls >= 3 => 2,
                     "wrapper2" if calls >= 4 => 3,
                     _ => 0,
                 };
-                let out = if mode == "filter" || mode == "cond" {
+                let out = if mode == "filter" || mode == "cond" || mode == "wrapped_many" {
                     // the embedder's arena sizes are a tuning knob; a loop iteration must give back what it took
                     // (the persistent arena too: 6 MiB hold the pools, the program and every printed line many times over)
                     pipeline::run_library_caps(&src, true, None, 6 << 20, (case["frame_kib"].as_u64().unwrap_or(256) as usize) << 10)
@@ -477,6 +500,16 @@ impl Engine for C17 {
                             if err.is_empty() && printed.next().is_some() {
                                 fake_libc::take_stdin();
                                 return res.violation("wrong-line", "the filtering loop printed more lines than it kept".into());
+                            }
+                        } else if mode == "wrapped_many" {
+                            // only the lengths were printed (ASCII lines: characters = bytes)
+                            for (k, l) in out.into_iter().enumerate() {
+                                let want = expected.get(k).map_or(0, Vec::len).to_string();
+                                if l != want.as_bytes() {
+                                    fake_libc::take_stdin();
+                                    return res.violation("wrong-line", format!("call {k}: the line has {} characters, expected {want}", String::from_utf8_lossy(&l)));
+                                }
+                                got.push(expected.get(k).cloned().unwrap_or_default());
                             }
                         } else if mode == "cond" {
                             // the loop consumed the lines up to and including the sentinel and counted them
